@@ -35,7 +35,7 @@ def _load(path):
 
 def run(ctx):
     ctx.level = "model_checking"
-    ctx.rule = ("decision cases = complete one-call behaviours of Autocert enumerated by TLC (11 name classes x policy x 9 cache classes "
+    ctx.rule = ("decision cases = complete one-call behaviours of Autocert enumerated by TLC (11 name classes x policy x 10 cache classes (wrong key split into unrelated key / negated scalar sharing X) "
                 "x 5 clock positions for valid entries x key type x token hello x 3 issuance outcomes), distinct = distinct tuple; RSA "
                 "issuance cases are a seeded sample (2048-bit key generation inside the Manager); concurrency = seeded rounds of 2..16 "
                 "goroutines, one recorded trace per round; renewal cases = (lifetime, RenewBefore, now) grid points enumerated by TLC in "
@@ -70,7 +70,10 @@ def run(ctx):
     if not g.traces:
         raise vlib.Infra("decision-table generator produced no cases")
     ctx.log("decision table: %d cases" % len(g.traces))
-    ctx.absorb(ctx.go_test("c51", "TestDecision$", cases=g.traces, timeout=1500, env={"C51_RSA_ISSUES": ctx.pick(6, 80)}))
+    dres = ctx.go_test("c51", "TestDecision$", cases=g.traces, timeout=1500, env={"C51_RSA_ISSUES": ctx.pick(6, 80)})
+    ctx.absorb(dres)
+    if not ctx.violations and not (dres.get("extra") or {}).get("c51_negated_scalar_cache_cases"):
+        raise vlib.Infra("vacuous: the cache class 'private key = negated scalar of the leaf key' did not run")
 
     # ---- (b) ownership under real concurrency
     tp = ctx.tmp("c51_conc.ndjson")
